@@ -24,19 +24,24 @@ func c08Scenario(di int, nthreads int, fine bool) mc.Scenario {
 	var baseOwned string
 	return func(x *mc.X) *mc.Outcome {
 		drv := c08drv.Drivers(nthreads)[di]
-		if baseline == nil {
-			// each thread alone, on cleared pools and a freshly built schema
-			for t := 0; t < drv.Threads; t++ {
-				zh.Reset()
-				sh := drv.Setup()
-				zh.Install(x, zh.PoolLIFO, zh.OrderSorted) // same canonical field order as the scheduled runs
-				var out []string
-				sh.Thread(t, &out, nil)
-				baseline = append(baseline, out)
-				if sh.Cleanup != nil {
-					sh.Cleanup()
-				}
+		// Prologue of every execution: each thread alone, on cleared pools and a freshly built schema. The first
+		// one is the baseline. Repeating it makes whatever the library keeps between calls outside the pools
+		// (a cache, a remembered value) start every schedule from the same content, so that a schedule's
+		// execution is a function of its choice vector.
+		var alone [][]string
+		for t := 0; t < drv.Threads; t++ {
+			zh.Reset()
+			sh := drv.Setup()
+			zh.Install(x, zh.PoolLIFO, zh.OrderSorted) // same canonical field order as the scheduled runs
+			var out []string
+			sh.Thread(t, &out, nil)
+			alone = append(alone, out)
+			if sh.Cleanup != nil {
+				sh.Cleanup()
 			}
+		}
+		if baseline == nil {
+			baseline = alone
 		}
 		zh.Reset()
 		sh := drv.Setup()
@@ -66,6 +71,12 @@ func c08Scenario(di int, nthreads int, fine bool) mc.Scenario {
 			x.Note("driver: %s (%d threads, fine=%v)", drv.Name, drv.Threads, fine)
 			x.Note("schedule (choice vector): %v", x.Choices())
 			out.Viol = append(out.Viol, &mc.Violation{Key: key, What: what, Expected: exp, Observed: got})
+		}
+		for t := range alone {
+			if !eqStrings(alone[t], baseline[t]) {
+				fail(fmt.Sprintf("C08:alone-result-unstable:d%d", di), fmt.Sprintf("thread %d run alone does not return what it returned alone before (after concurrent executions of the same driver)", t), strings.Join(baseline[t], " || "), strings.Join(alone[t], " || "))
+				return out
+			}
 		}
 		if s.Err != nil {
 			fail(fmt.Sprintf("C08:panic:d%d", di), fmt.Sprintf("thread %d panicked under this interleaving", s.ErrWho), "no panic", fmt.Sprint(s.Err))
@@ -116,6 +127,12 @@ func init() {
 			var items []Item
 			for i, d := range c08drv.Drivers(2) {
 				items = append(items, Item{Name: "coarse/2threads/" + d.Name, MaxDevs: c, Run: c08Scenario(i, 2, false)})
+			}
+			if tier != "thorough" {
+				// quick: one preemption anywhere (before any library statement), pool answers most-recently-released-first
+				for i, d := range c08drv.Drivers(2) {
+					items = append(items, Item{Name: "fine/2threads/" + d.Name, MaxDevs: 1, Run: c08Scenario(i, 2, true)})
+				}
 			}
 			if tier == "thorough" {
 				for i, d := range c08drv.Drivers(2) {
